@@ -247,3 +247,28 @@ def perc_record_fixed(b, E, peaks, perc):
         exp_fs = (np.array(rec['wrapped']) + 0.5) / np.array(E.shape)
         rec['fracInCell'] = bool(np.all((fs >= 0) & (fs < 1)) and np.allclose(fs, exp_fs, atol=1e-12))
     return rec
+
+
+def npaths_record(rng, b, E, diagonal):
+    import networkx as nx
+    from fractions import Fraction
+    from pymatgen.core import Lattice
+    from gemdat.volume import FreeEnergyVolume
+    F = FreeEnergyVolume(data=to_energy(E, 'sum'), lattice=Lattice.cubic(5.0))
+    free = np.argwhere(E != BLOCKED)
+    if len(free) < 2:
+        return None
+    i, j = rng.choice(len(free), size=2, replace=False)
+    start, stop = free[i], free[j]
+    n = int(rng.integers(1, 5))
+    fr = [Fraction(3, 20), Fraction(1, 4), Fraction(1, 2), Fraction(0, 1)][int(rng.integers(0, 4))]
+    rec = {'b': b, 'act': 'NPaths', 'E': E.tolist(), 'diagonal': bool(diagonal), 'start': [int(x) for x in start], 'stop': [int(x) for x in stop],
+           'n': n, 'num': fr.numerator, 'den': fr.denominator, 'raised': False, 'paths': [], 'meta': {'n_paths': n, 'min_diff': float(fr)}}
+    G = F.free_energy_graph(max_energy_threshold=1e7, diagonal=diagonal)
+    try:
+        paths = F.optimal_n_paths(G, start=tuple(int(x) for x in start), stop=tuple(int(x) for x in stop), n_paths=n, min_diff=float(fr))
+    except (nx.NetworkXNoPath, nx.NodeNotFound):
+        rec['raised'] = True
+        return rec
+    rec['paths'] = [[[int(x) for x in sx] for sx in p.sites] for p in paths]
+    return rec
